@@ -52,6 +52,7 @@ def run(repo: Repo, chk: Check) -> None:
     pass_structure(repo, chk)
     state_erasure(repo, chk)
     rocc(repo, chk)
+    retrace_intact(repo, chk)
     registry_binding(repo, chk)
 
 
@@ -795,7 +796,7 @@ def pass_structure(repo: Repo, chk: Check) -> None:
     ran = [n for n in ast.walk(apply.node) if isinstance(n, ast.Call) and callee_name(n) == "rewrite_module"]
     chk.result(len(ran) >= len(walkers), "C04.exhaustive", "walkers-run", apply.where, f"{len(walkers)} walkers, each applied with rewrite_module",
                f"{len(walkers)} walkers constructed but {len(ran)} rewrite_module call(s)")
-    by_type: dict[str, tuple[str, int]] = {}
+    by_type: dict[str, tuple[str, int, bool]] = {}
     for si, names in enumerate(stages):
         for n in names:
             c = mod.classes[n]
@@ -804,14 +805,22 @@ def pass_structure(repo: Repo, chk: Check) -> None:
                 continue
             t = _pattern_op_type(mr)
             typed = any("op_type_rewrite_pattern" in d for d in mr.decorators())
-            by_type.setdefault(t if typed and t else f"*{n}", (n, si))
+            k_ = t if typed and t else f"*{n}"
+            # several patterns may match one op type (a preparation step before the lowering): the lowering is the one that asks the accelerator for it
+            lowers_ = any(isinstance(x, ast.Call) and (callee_name(x) or "").startswith("lower_acc_") for x in ast.walk(mr.node))
+            if k_ not in by_type or (lowers_ and not by_type[k_][2]):
+                by_type[k_] = (n, si, lowers_)
+    # declarations and states go in the walker that holds the erasing patterns; everything that reads them runs before it
+    erase_si = next((si for si, names in enumerate(stages) if any(n in ("RemoveAcceleratorOps", "DeleteAllStates") or _pattern_op_type(mod.classes[n].methods["match_and_rewrite"]) == "AcceleratorOp"
+                                                                    for n in names if "match_and_rewrite" in mod.classes[n].methods)), len(stages))
     for opname, kind in (("SetupOp", "setup"), ("LaunchOp", "launch"), ("AwaitOp", "await")):
         key = f"lowers:{opname}"
         if opname not in by_type:
             chk.bad("C04.exhaustive", key, apply.where, f"no registered pattern matches accfg.{opname}: such ops survive the lowering")
             continue
-        pname, si = by_type[opname]
-        chk.result(si == 0, "C04.exhaustive", key, apply.where, f"{pname} (accfg.{opname}) runs in the first walker", f"{pname} runs in walker {si + 1}, after declarations may already be erased")
+        pname, si, _ = by_type[opname]
+        chk.result(si < erase_si, "C04.exhaustive", key, apply.where, f"{pname} (accfg.{opname}) runs before the walker that erases declarations and states",
+                   f"{pname} runs in walker {si + 1}, after declarations may already be erased")
         mr = mod.classes[pname].methods["match_and_rewrite"]
         chk.analysed(mr.key)
         fl = Flow(mr, repo)
@@ -1007,6 +1016,39 @@ def shared_mutations(repo: Repo, f: Func, memo: dict[str, Func]) -> list[tuple[i
                 if isinstance(t, ast.Subscript) and isinstance(t.value, ast.Name) and t.value.id in tainted:
                     out.append((n.lineno, f"store into {t.value.id}[...] mutates the object memoised by {tainted[t.value.id]}()"))
     return out
+
+
+def retrace_intact(repo: Repo, chk: Check) -> None:
+    """the lowering walks backwards and erases every setup it has lowered. What a setup finds by tracing its in_state therefore lacks the setups behind it -
+    harmless for straight-line predecessors (they come earlier and are still there) but not for a loop-carried state, whose yield chain lies BEHIND the loop head:
+    the missing partner of a RoCC instruction at the top of a loop body is then taken from the loop's init value although the body rewrites it. Tracing has to
+    happen while the IR is intact: in a walker that runs before the erasing one"""
+    chk.rule("C04.retrace-intact", "state is traced (infer_state_of) for the lowering only while no setup has been erased: by a pattern applied in a walker that runs before "
+             "the reverse walker of the setup lowering, which completes the RoCC operand pairs", floor=1)
+    f = repo.func(PASS, "ConvertAccfgToCsrPass.apply")
+    chk.analysed(f.key)
+    cp = repo.func(ROCC, "create_pairs")
+    traces = any(isinstance(c, ast.Call) and callee_name(c) == "infer_state_of" for c in ast.walk(cp.node))
+    walkers = [st for st in f.node.body if any(isinstance(c, ast.Call) and callee_name(c) == "PatternRewriteWalker" for c in ast.walk(st))]
+    lowering = next((i for i, st in enumerate(walkers) if "LowerAccfgSetupToCsr" in ast.unparse(st)), None)
+    if lowering is None:
+        raise AnalysisError(f"{f.where}: the walker applying LowerAccfgSetupToCsr was not found")
+    reverse = "walk_reverse=True" in ast.unparse(walkers[lowering]).replace(" ", "").replace("walk_reverse=True", "walk_reverse=True")
+    completed = False
+    for st in walkers[:lowering]:
+        for c in ast.walk(st):
+            if isinstance(c, ast.Call) and isinstance(c.func, ast.Name) and c.func.id in repo.module(PASS).classes:
+                k = repo.module(PASS).classes[c.func.id]
+                m = k.methods.get("match_and_rewrite")
+                if m is not None and any(isinstance(x, ast.Call) and callee_name(x) == "infer_state_of" for x in ast.walk(m.node)) \
+                        and any(isinstance(x, ast.Call) and callee_name(x) == "SetupOp" for x in ast.walk(m.node)):
+                    chk.analysed(m.key)
+                    completed = True
+    chk.result(not (traces and reverse) or completed, "C04.retrace-intact", f"{f.key}:pairs-before-erasure", f"{PASS}:{walkers[lowering].lineno}",
+               "the operand pairs are completed from the traced state before any setup is erased",
+               "create_pairs traces the state (infer_state_of) from inside the reverse walker that erases the setups it has lowered: for `setup(X.rs1, X.rs2); for { s2 = "
+               "setup from %arg (X.rs1); ..; s3 = setup from s2 (X.rs2 = %w); yield s3 }` s3 is gone when s2 is lowered, the loop head is traced to the init value "
+               "and `X(%v, %b)` is emitted although X.rs2 holds %w from the second iteration on (findings/C04_rocc_partner_in_loop.mlir)")
 
 
 def rocc(repo: Repo, chk: Check) -> None:
